@@ -21,9 +21,9 @@ EVAL_KEY = "contract_evals"
 DISTINCT_KEY = "cases"
 NSHARDS = {"quick": 8, "thorough": 16}
 FLOORS = {"quick": {"contract_judged": 3000, "layout_lines_checked": 60000, "aligned_values_checked": 5000, "distinct:option-sets": 25,
-                    "distinct:line-kinds": 25},
+                    "distinct:line-kinds": 25, "separator_character_documents": 12},
           "thorough": {"contract_judged": 35000, "layout_lines_checked": 800000, "aligned_values_checked": 100000,
-                       "distinct:option-sets": 400, "distinct:line-kinds": 30}}
+                       "distinct:option-sets": 400, "distinct:line-kinds": 30, "separator_character_documents": 12}}
 ASSUMPTIONS = ["mf/reader.py + mf/printcheck.py read the output independently of the printer",
                "simple keywords for the alignment clause = scalar / list valued keywords and repeatable keywords of one object "
                "(CONFIG, key-value blocks, PROJECTION/POINTS/PATTERN and child blocks excluded)"]
@@ -66,6 +66,10 @@ def emit(ctx, eng, d, opts, label, extra=None):
             continue
         if rep.content:
             res.count("content_desync_not_judged_here")
+            # (C03 judges content; of the layout findings only the one that does not depend on the walk staying in step is kept)
+            for kind, detail in rep.layout:
+                if kind == "keyword-line-broken-inside-its-value":
+                    res.violation(kind, dict(case, text=result[:4000]), detail, "layout contract")
             continue
         if rep.stats.get("layout_skipped_no_linebreak"):
             res.count("layout_skipped_no_linebreak")
@@ -122,6 +126,20 @@ def run(ctx):
             out = emit(ctx, eng, copy.deepcopy(d), next_opts(), ("built", "loaded", "loaded+comments")[mode])
         if out and len(res.samples) < 2 and 150 < len(out) < 700:
             res.sample({"options": engine.opt_key(osets[0]), "text": out})
+    # commented keyword lines whose value (or comment) holds a character that some line-splitting routines treat as a line end
+    # (VT, FF, FS, GS, RS, NEL, U+2028, U+2029): they are ordinary characters, the keyword line stays one line
+    if ctx.shard == 0:
+        for ch in "\x0b\x0c\x1c\x1d\x1e\x85\u2028\u2029":
+            for text in (f'MAP\n  NAME "front{ch}back" # the name of the map\n  STATUS ON\n  LAYER\n    NAME "l" /* c{ch}d */\n    DATA "a{ch}" # data\n  END\nEND\n',
+                         f'LAYER\n  # above{ch}x\n  NAME "l{ch}{ch}m" # n\n  METADATA\n    "k{ch}" "v{ch}w" # pair\n  END\nEND\n'):
+                try:
+                    d = eng.loads(text, include_comments=True)
+                except Exception as ex:
+                    res.count("separator_document_not_accepted:" + type(ex).__name__)
+                    continue
+                res.count("separator_character_documents")
+                for _ in range(4):
+                    emit(ctx, eng, copy.deepcopy(d), next_opts(), "separator-characters+comments", {"character": repr(ch)})
     # objects whose simple keywords are all SHORT while they also hold CONFIG lines, key-value blocks, PROJECTION / PATTERN / POINTS or
     # child blocks: none of those names takes part in "the longest simple keyword" of the alignment rule
     containers = set(vocab.kv_keys()) | {"config", "projection", "pattern", "points"}
